@@ -211,6 +211,48 @@ pub fn case(ctx: &mut Ctx, idx: u64) {
         }
     }
 
+    // ---- A2b: the same round trip when the values arrive through a `Difficulty` (as the calculators do it), with
+    //           lazer DifficultyAdjust values present in the mods: a value the caller supplied wins over the mod's
+    {
+        use rosu_pp::Difficulty;
+        for _ in 0..6 {
+            let v = (rng.range(0, 40) as f32) * 0.25;
+            let mods = gen_mods(&mut rng, true);
+            let mut d = Difficulty::new().mods(mods.to_gamemods(mode));
+            if let Some(c) = base.clock {
+                d = d.clock_rate(c);
+            }
+            let which = rng.below(4);
+            d = match which {
+                0 => d.ar(v, true),
+                1 => d.od(v, true),
+                2 => d.cs(v, true),
+                _ => d.hp(v, true),
+            };
+            let b = bracket("attributes::build", || BeatmapAttributesBuilder::new().mode(mode, is_convert).difficulty(&d).build());
+            let w = bracket("attributes::hit_windows", || BeatmapAttributesBuilder::new().mode(mode, is_convert).difficulty(&d).hit_windows());
+            ctx.eval();
+            let (name, got) = match which {
+                0 => ("ar", b.ar),
+                1 => ("od", b.od),
+                2 => ("cs", b.cs),
+                _ => ("hp", b.hp),
+            };
+            if (got - f64::from(v)).abs() > 1e-6 {
+                viol(
+                    ctx,
+                    &format!("C17/A2/{mname}/{name}/via-difficulty"),
+                    format!("Difficulty::{name}({v}, true) with mods {} is reported back as {got} by attributes().difficulty(&d).build()", mods.describe()),
+                );
+                break;
+            }
+            if dump(&b.hit_windows) != dump(&w) {
+                viol(ctx, &format!("C17/A1/{mname}/via-difficulty"), format!("build().hit_windows != hit_windows() for {d:?}"));
+                break;
+            }
+        }
+    }
+
     // ---- A3: windows shrink monotonically as AR / OD grow (everything else fixed)
     for flag in [false, true] {
         let mut prev: Option<(f32, HitWindows)> = None;
